@@ -113,21 +113,74 @@ static Val apply(Kind k, const std::vector<Val> &v, bool nary)
     }
 }
 
-// ------------------------------------------------------------------ operand classes with known defects
-static bool is_perfect_power(const integer_class &a) // a > 1
+// ------------------------------------------------------------------ operand classes
+// The library's normal forms are not confluent on all exact operands (docs/C04.md).  The predicates
+// below are the same decidable predicates as `AC.addOperandSafe` / `AC.mulOperandSafe` of the Lean model
+// (lean/SymVerif/Model/AC.lean), evaluated on the real objects; outside them an order-dependent result
+// is a *known* finding, inside them it is a fresh violation.
+static bool is_perfect_power(const integer_class &a) // a >= 2
 {
     return mpz_perfect_power_p(get_mpz_t(a)) != 0;
 }
+static bool atom_base(const Basic &b)
+{
+    return !is_a_Number(b) && !is_a<Mul>(b) && !is_a<Pow>(b);
+}
+static bool safe_rad_base(const Basic &b)
+{
+    if (!is_a<Integer>(b))
+        return false;
+    const integer_class &i = down_cast<const Integer &>(b).as_integer_class();
+    return i >= 2 && !is_perfect_power(i);
+}
+static bool add_operand_safe(const Basic &a)
+{
+    if (is_a<Mul>(a)) {
+        const Mul &m = down_cast<const Mul &>(a);
+        if (m.get_dict().size() == 1) {
+            auto p = m.get_dict().begin();
+            return !(is_a<Add>(*p->first) && eq(*p->second, *one));
+        }
+        return true;
+    }
+    if (is_a<Add>(a)) {
+        for (auto &p : down_cast<const Add &>(a).get_dict())
+            if (is_a<Add>(*p.first))
+                return false;
+        return true;
+    }
+    return true;
+}
+static bool factor_safe(const Basic &b, const Basic &e)
+{
+    return (atom_base(b) && add_operand_safe(e)) || (safe_rad_base(b) && is_a<Rational>(e));
+}
+static bool mul_operand_safe(const Basic &a)
+{
+    if (is_a<Mul>(a)) {
+        for (auto &p : down_cast<const Mul &>(a).get_dict())
+            if (!factor_safe(*p.first, *p.second))
+                return false;
+        return true;
+    }
+    if (is_a<Pow>(a)) {
+        const Pow &p = down_cast<const Pow &>(a);
+        return factor_safe(*p.get_base(), *p.get_exp());
+    }
+    return is_a_Number(a) || atom_base(a);
+}
 
-// collects the reasons why an operand multiset is outside the fragment for which uniqueness is claimed
+// descriptive tags for the statistics / the oracle text: *why* an operand is outside the safe class
 struct Classes {
-    bool rad_neg = false;      // numeric radical with a negative base            b**(p/q), b < 0
-    bool rad_pp = false;       // numeric radical whose base is a perfect power   4**(1/3)
-    bool add_key_add = false;  // a sum occurs as a *term* of a sum with a coefficient   2*(x+y)
-    bool cplx_rad = false;     // Gaussian base with a rational exponent   I**(1/2)
-    bool sym_rad = false;      // non-numeric base with a non-integer numeric exponent   x**(1/2), (x*y)**(1/3)
-    bool pow_key = false;      // a Pow as the base of a factor   (x**y)**z
-    bool num_symexp = false;   // number raised to a symbolic exponent   2**x
+    bool rad_neg = false;     // numeric radical with a negative base            (-2)**(1/3)
+    bool rad_pp = false;      // numeric radical whose base is a perfect power   4**(1/3)
+    bool rad_gauss = false;   // Gaussian base with a rational exponent          I**(1/2)
+    bool mul_base = false;    // a product as the base of a factor               (x*y)**(1/2), (-x)**y
+    bool pow_base = false;    // a power as the base of a factor                 (x**y)**z
+    bool num_symexp = false;  // number raised to a non-numeric exponent         2**x
+    bool sum_term = false;    // a sum as a term of a sum / c*(sum)              2*(x+y)
+    bool exp_sum_term = false; // the same inside an exponent                    x**(2*(y+z))
+    bool other = false;
     std::string str() const
     {
         std::string s;
@@ -135,88 +188,65 @@ struct Classes {
             s += "+rad-negbase";
         if (rad_pp)
             s += "+rad-perfectpower";
-        if (cplx_rad)
+        if (rad_gauss)
             s += "+rad-gaussian";
-        if (add_key_add)
-            s += "+sum-as-term";
-        if (sym_rad)
-            s += "+symrad";
-        if (pow_key)
-            s += "+powkey";
+        if (mul_base)
+            s += "+mulbase";
+        if (pow_base)
+            s += "+powbase";
         if (num_symexp)
-            s += "+numsymexp";
-        return s.empty() ? "plain" : s.substr(1);
+            s += "+num-symexp";
+        if (sum_term)
+            s += "+sum-as-term";
+        if (exp_sum_term)
+            s += "+exp-sum-as-term";
+        if (other)
+            s += "+other";
+        return s.empty() ? "safe" : s.substr(1);
     }
 };
-
-static void classify_factor(const Basic &base, const Basic &exp, Classes &c);
-static void classify(const Basic &b, Classes &c, int depth = 0)
+static void why_factor(const Basic &b, const Basic &e, Classes &c)
 {
-    if (depth > 100)
+    if (factor_safe(b, e))
         return;
-    switch (b.get_type_code()) {
-        case SYMENGINE_ADD: {
-            const Add &a = down_cast<const Add &>(b);
-            for (auto &p : a.get_dict()) {
-                if (is_a<Add>(*p.first))
-                    c.add_key_add = true;
-                classify(*p.first, c, depth + 1);
-            }
-            return;
-        }
-        case SYMENGINE_MUL: {
-            const Mul &m = down_cast<const Mul &>(b);
-            if (m.get_dict().size() == 1 && is_a<Add>(*m.get_dict().begin()->first)
-                && eq(*m.get_dict().begin()->second, *one))
-                c.add_key_add = true; // coef * (sum)
-            for (auto &p : m.get_dict()) {
-                classify_factor(*p.first, *p.second, c);
-                classify(*p.first, c, depth + 1);
-                classify(*p.second, c, depth + 1);
-            }
-            return;
-        }
-        case SYMENGINE_POW: {
-            const Pow &p = down_cast<const Pow &>(b);
-            classify_factor(*p.get_base(), *p.get_exp(), c);
-            classify(*p.get_base(), c, depth + 1);
-            classify(*p.get_exp(), c, depth + 1);
-            return;
-        }
-        default:
-            if (is_a_Number(b) || is_a<Symbol>(b) || is_a<Constant>(b))
-                return;
-            for (auto &a : b.get_args())
-                classify(*a, c, depth + 1);
-    }
-}
-static void classify_factor(const Basic &base, const Basic &exp, Classes &c)
-{
-    if (is_a<Integer>(base) && is_a<Rational>(exp)) {
-        const integer_class &i = down_cast<const Integer &>(base).as_integer_class();
+    bool any = false;
+    if (is_a<Integer>(b) && is_a<Rational>(e)) {
+        const integer_class &i = down_cast<const Integer &>(b).as_integer_class();
         if (i < 0)
-            c.rad_neg = true;
-        else if (i > 1 && is_perfect_power(i))
-            c.rad_pp = true;
+            c.rad_neg = any = true;
+        else if (i >= 2 && is_perfect_power(i))
+            c.rad_pp = any = true;
     }
-    if (is_a<Complex>(base) && is_a<Rational>(exp))
-        c.cplx_rad = true;
-    if (!is_a_Number(base) && is_a_Number(exp) && !is_a<Integer>(exp))
-        c.sym_rad = true;
-    if (is_a<Pow>(base))
-        c.pow_key = true;
-    if (is_a_Number(base) && !is_a_Number(exp))
-        c.num_symexp = true;
+    if (is_a<Complex>(b) && is_a_Number(e))
+        c.rad_gauss = any = true;
+    if (is_a<Mul>(b))
+        c.mul_base = any = true;
+    if (is_a<Pow>(b))
+        c.pow_base = any = true;
+    if (is_a_Number(b) && !is_a_Number(e))
+        c.num_symexp = any = true;
+    if (atom_base(b) && !add_operand_safe(e))
+        c.exp_sum_term = any = true;
+    if (!any)
+        c.other = true;
 }
-
-// the classes in which order-dependence is a *known* finding (see docs/C04.md); everything else must be unique
-static bool known_unsafe(Kind k, const Classes &c)
+static void why(Kind k, const Basic &a, Classes &c)
 {
-    if (k == K_MUL)
-        return c.rad_neg || c.rad_pp;
-    if (k == K_ADD)
-        return c.add_key_add || c.rad_neg || c.rad_pp;
-    return false;
+    if (k == K_ADD) {
+        if (!add_operand_safe(a))
+            c.sum_term = true;
+    } else if (k == K_MUL) {
+        if (mul_operand_safe(a))
+            return;
+        if (is_a<Mul>(a)) {
+            for (auto &p : down_cast<const Mul &>(a).get_dict())
+                why_factor(*p.first, *p.second, c);
+        } else if (is_a<Pow>(a)) {
+            const Pow &p = down_cast<const Pow &>(a);
+            why_factor(*p.get_base(), *p.get_exp(), c);
+        } else
+            c.other = true;
+    }
 }
 
 // ------------------------------------------------------------------ the variants
@@ -397,9 +427,12 @@ std::string hx_run(const std::string &line, std::string &oracle)
         return "bad-op";
     std::vector<Val> ops = build_operands(nodes);
     Classes c;
-    for (auto &o : ops)
-        classify(*o.e, c);
-    bool unsafe = known_unsafe(k, c);
+    bool unsafe = false;
+    for (auto &o : ops) {
+        why(k, *o.e, c);
+        if ((k == K_ADD && !add_operand_safe(*o.e)) || (k == K_MUL && !mul_operand_safe(*o.e)))
+            unsafe = true;
+    }
     Outcome o = run_variants(k, ops, fnv(line));
     stat(std::string("ops:") + kind_name(k));
     stat("n=" + std::to_string(ops.size()));
